@@ -425,7 +425,7 @@ func runChild(exe string, p *fw.Prop, tier string, seed int64, b int, plan fw.Pl
 	cmd.Stderr = lf
 	cmd.Env = append(os.Environ(), "GOTRACEBACK=all")
 	if p.Race {
-		cmd.Env = append(cmd.Env, "GORACE=halt_on_error=0 history_size=3 log_path="+raceBase)
+		cmd.Env = append(cmd.Env, "GORACE=halt_on_error=0 exitcode=0 history_size=3 log_path="+raceBase)
 	}
 	if err := cmd.Start(); err != nil {
 		res.crashed = true
